@@ -2659,8 +2659,12 @@ class Wallet(object):
             if not include_private:
                 private_fields += ['private', 'wif']
             for key in keys:
+                # Only fields of the key itself: related database objects which happen to be loaded in this session
+                # (cosigner child keys, transaction inputs and outputs) are no part of the key dictionary
                 keys2.append({k: v for (k, v) in key.items()
-                              if k[:1] != '_' and k != 'wallet' and k not in private_fields})
+                              if k[:1] != '_' and k != 'wallet' and k not in private_fields and
+                              not isinstance(v, Base) and
+                              not (isinstance(v, list) and [x for x in v if isinstance(x, Base)])})
             return keys2
         # qr.session.close()
         qr.session.commit()
